@@ -149,6 +149,8 @@ fn regimes(thorough: bool) -> Vec<D> {
         // a = b is excluded here: alea::i64_in_range asserts max > min (defect D11, owned by C19)
         D::DiscreteUniform(0, 1), D::DiscreteUniform(-2, 6), D::DiscreteUniform(0, 99), D::DiscreteUniform(-5, -4), D::DiscreteUniform(0, 1 << 40),
         D::Bernoulli(0.0), D::Bernoulli(1.0), D::Bernoulli(0.5), D::Bernoulli(0.75), D::Bernoulli(1e-3),
+            // p > 1/2 with a large mean and only a handful of expected failures (the reflected p decides between inversion and BTPE)
+        D::Binomial(100, 0.97), D::Binomial(200, 0.98), D::Binomial(35, 0.95), D::Binomial(1000, 0.999), D::Binomial(60, 0.6),
     ];
     if thorough {
         v.extend([D::Gamma(0.25, 10.0), D::Gamma(0.7, 2.0), D::Gamma(3.3, 1.0), D::Beta(0.3, 0.7), D::Beta(5.0, 1.0), D::T(0.6), D::T(5.0), D::Poisson(20.0), D::Poisson(171.0),
